@@ -7,7 +7,8 @@ Source expressions: `(a n)` operand, `(p s)` parenthesis, `(ab n o s)` operand-o
 `(pb s o s)` parenthesis-operator-rest, `(u k s)` prefix operator; operators are the indices of
 `Op.idx` / `UOp.idx`.  Trees: `(l n)`, `(p t)`, `(u k t)`, `(b o l r)`.
 `expr.frac neg (int digits) (fraction digits) pound`: a literal with a fraction; the answer gives the sign
-bit and the magnitude as `m e` (`m` odd, value `m * 2^e`) or `inf`. -/
+bit and the magnitude as `m e` (`m` odd, value `m * 2^e`), or `overflow` for a literal the parser rejects
+with `ParserError::Overflow` (a decimal that rounds to an infinity). -/
 namespace RbModel.Drv.Expr
 open RbModel RbModel.Expr RbModel.FloatLit
 
@@ -69,10 +70,11 @@ def fvalStr : FVal → Option String
   | .fin s m => do pure s!"{if s then 1 else 0} {← dyadicStr m}"
   | .inf s => pure s!"{if s then 1 else 0} inf"
 
-/-- `(single sign m e)` / `(double sign m e)` / `(single sign inf)`. -/
-def flitStr : FLit → Option String
-  | .single v => do pure s!"(single {← fvalStr v})"
-  | .double v => do pure s!"(double {← fvalStr v})"
+/-- `(single sign m e)` / `(double sign m e)` / `overflow`. -/
+def flitStr : FRes → Option String
+  | .ok (.single v) => do pure s!"(single {← fvalStr v})"
+  | .ok (.double v) => do pure s!"(double {← fvalStr v})"
+  | .overflow => pure "overflow"
 
 def handle (cmd : String) (args : List Sexp) : Option String :=
   match cmd, args with
